@@ -88,6 +88,8 @@ class G:
         if d <= 0 or c < 0.3:
             if vs and r.random() < 0.6:
                 return N(r.choice(vs))
+            if r.random() < 0.08:       # beyond ASCII / longer than the 20 characters a report shows
+                return St(r.choice(["\u00e9", "a\u00f1b", "abcdefghijklmnopqrstuvwxy", "\u65e5\u672c"]))
             return St(r.choice(["", "a", "ab", "xyz"]))
         if c < 0.55:
             return bin_("+", s.eS(ctx, d - 1), s.eS(ctx, d - 1))
@@ -104,6 +106,8 @@ class G:
         if d <= 0 or c < 0.35:
             if vs and r.random() < 0.6:
                 return N(r.choice(vs))
+            if r.random() < 0.04:       # a finite float outside the exact sub-domain (carried by its bits)
+                return FlOpq(r.choice([0.1, 0.30000000000000004, 2.675, 1234.5678]))
             return Fl(r.choice([1, 3, 5, 0]), r.choice([0, 1, 2]))
         if c < 0.7:
             return bin_(r.choice(["+", "-", "*"]), s.eF(ctx, d - 1), s.e(r.choice("FI"), ctx, d - 1))
